@@ -145,6 +145,65 @@ def check_blake2_mac(ctx, P, mod):
     ctx.check(ok, "flag-guard", T + "::Mac::input", "Mac::input requires !computed", "<%s as Mac>::input accepts data after the result" % T, where=mi.where(), key="flag-guard:%s::Mac::input" % T)
 
 
+def check_blake2_object(ctx, P, mod):
+    """the legacy Blake2b / Blake2s object around its hashing context: constructors start un-finalised, the inherent reset
+    returns to the state of new() on every path, the one-shot helper feeds the whole input and finalises into the caller's
+    buffer, the reported MAC size is the context's digest size in bytes"""
+    T = "%s::%s" % (mod, mod.capitalize())
+    H = "hashing::%s::ContextDyn" % mod
+    for ctor in ("new", "new_keyed"):
+        fn = P.fn("%s::%s" % (T, ctor))
+        aggs = [st for b in sorted(fn.reachable()) for st in fn.stmts(b) if st[0] == "=" and st[2][0] == "agg" and st[2][1][0] == "adt" and st[2][1][1] == T]
+        ok = len(aggs) == 1
+        if ok:
+            d = dict(zip(aggs[0][2][1][4], [fn.expr(o) for o in aggs[0][2][2]]))
+            comp = d.get("computed")
+            ctxe = pred.short(d.get("ctx"), fn) if d.get("ctx") is not None else ""
+            want = "ContextDyn::new(arg1)" if ctor == "new" else "ContextDyn::new_keyed(arg1,arg2)"
+            ok = comp is not None and comp[:2] == ("const", 0) and ctxe == want
+            if ctor == "new":
+                kl = d.get("keylen")
+                ok = ok and kl is not None and kl[:2] == ("const", 0)
+        ctx.check(ok, "ctor", "%s::%s" % (T, ctor), "%s builds %s with the caller's parameters and starts with computed == false" % (ctor, H.split("::")[-1] + "::" + ctor), "%s::%s does not start un-finalised on the hashing context built from its own arguments" % (T, ctor), where=fn.where(), key="ctor:%s::%s" % (T, ctor))
+    # inherent reset
+    fn = P.fn(T + "::reset")
+    rs = [c for c in fn.calls() if c.name() == H + "::reset"]
+    ok = len(rs) == 1 and pred.canon(fn.expr(rs[0].args[0]), fn) == "arg1.ctx" and rules.every_ret_path_passes(fn, [rs[0].bb])
+    vals = rules.last_write_values(P, fn, "computed")
+    ok = ok and vals == {0}
+    ctx.check(ok, "rekey", T + "::reset:state", "inherent reset() resets the hashing context and clears computed on every path", "%s::reset() does not return the object to the state of new() (context reset on every path, computed = false): computed in %s" % (T, vals), where=fn.where(), key="rekey:%s::reset:state" % T)
+    # one-shot helper
+    fn = P.fn("%s::%s" % (T, mod))
+    up = [c for c in fn.calls() if c.name() == T + "::update"]
+    fi = [c for c in fn.calls() if c.name() == T + "::finalize"]
+    ok = len(up) == 1 and len(fi) == 1 and fn.dominates(up[0].bb, fi[0].bb) and rules.every_ret_path_passes(fn, [fi[0].bb]) and rules.every_ret_path_passes(fn, [up[0].bb])
+    if ok:
+        ok = pred.canon(fn.expr(up[0].args[1]), fn) == "arg2" and pred.canon(fn.expr(fi[0].args[1]), fn) == "arg1" and pred.canon(fn.expr(up[0].args[0]), fn) == pred.canon(fn.expr(fi[0].args[0]), fn)
+    ctx.check(ok, "oneshot", "%s::%s" % (T, mod), "one-shot = update(input) then finalize(out) on one object, on every path", "%s::%s does not feed its whole input and finalise into the caller's buffer" % (T, mod), where=fn.where(), key="oneshot:%s::%s" % (T, mod))
+    # Mac::output_bytes and Mac::result buffer size
+    ob = objects.m(P, T, "mac::Mac", "output_bytes")
+    e = pred.short(ob.local_expr(0), ob)
+    ok = e in ("(ContextDyn::output_bits(arg1.ctx) Div 8)",)
+    ctx.check(ok, "table", T + "::Mac::output_bytes", "output_bytes = output_bits / 8", "<%s as Mac>::output_bytes is not the digest size in bytes: %s" % (T, e), where=ob.where(), key="table:%s::Mac::output_bytes" % T)
+
+
+def check_digest_defaults(ctx, P):
+    """provided methods of the Digest trait: input_str feeds the string's bytes, output_bytes = ceil(bits / 8)"""
+    fn = P.fn_opt("digest::Digest::input_str")
+    if fn is None:
+        ctx.lost("delegate", "Digest::input_str", "provided method not found")
+        return
+    cs = [c for c in fn.calls() if c.name().endswith("Digest::input") or c.name().endswith("::input")]
+    ok = len(cs) == 1 and rules.every_ret_path_passes(fn, [cs[0].bb]) and pred.short(fn.expr(cs[0].args[1]), fn) in ("str::as_bytes(arg2)", "as_bytes(arg2)") and pred.canon(fn.expr(cs[0].args[0]), fn) == "arg1"
+    ctx.check(ok, "delegate", "Digest::input_str", "input_str(s) = input(s.as_bytes())", "Digest::input_str does not feed the string's bytes to input: %s" % [pred.short(fn.expr(a), fn) for c in cs for a in c.args], where=fn.where(), key="delegate:Digest::input_str")
+    ob = P.fn_opt("digest::Digest::output_bytes")
+    if ob is not None:
+        e = pred.short(ob.local_expr(0), ob)
+        l, c = pred.lin(ob.local_expr(0), ob) if hasattr(pred, "lin") else ({}, 0)
+        ok = e == "(lin{+1*Digest::output_bits(arg1)+7} Div 8)"
+        ctx.check(ok, "table", "Digest::output_bytes", "output_bytes = (output_bits + 7) / 8", "Digest::output_bytes is not ceil(output_bits / 8): %s" % e, where=ob.where(), key="table:Digest::output_bytes")
+
+
 def check_clone(ctx, P):
     for T in sorted(objects.LEGACY) + ["poly1305::Poly1305"]:
         adt = P.adts.get(T)
@@ -167,6 +226,8 @@ def run(ctx):
     ctx.guard("poly1305", "Mac", lambda: check_poly1305(ctx, P))
     for mod in ("blake2b", "blake2s"):
         ctx.guard("blake2-mac", mod, lambda: check_blake2_mac(ctx, P, mod))
+        ctx.guard("blake2-object", mod, lambda: check_blake2_object(ctx, P, mod))
+    ctx.guard("delegate", "Digest defaults", lambda: check_digest_defaults(ctx, P))
     hashctx.check_all_blake2_keyed(ctx, P, which=("new_keyed", "reset_with_key", "reset"))
     macs = sorted({f.self_ty for f in P.fns.values() if f.impl_trait == "mac::Mac"})
     ctx.check(macs == ["blake2b::Blake2b", "blake2s::Blake2s", "hmac::Hmac<D>", "poly1305::Poly1305"], "floor", "Mac impls", "4 `impl Mac` types, all covered", "the set of `impl Mac` types changed: %s" % macs, key="floor:mac-impls")
